@@ -10,7 +10,7 @@
               spelling / denoted string, line); if it rejects the text, the load must fail; a text the generator
               produced from the grammar (valid = 1) must load
     L num <hex numeral> => <wire number | nan | err>
-      Model : scanNumber + the ParseInt/ParseFloat cascade of `parseNumber` on digit-only and hexadecimal numerals
+      Model : scanNumber + `parseNumber` (Lua numeral grammar) on digit-only and hexadecimal numerals below 2^53
       Spec  : the integer the numeral denotes (when it denotes one below 2^53)
 -/
 import GLua.Engines.Common
@@ -130,8 +130,9 @@ def classify (mdl : Lexer.LexAll) (spec : LexSpec.Res) (reason : String) : Strin
     if reason.startsWith "newline-before-parenthesis flag" then "KF:C08-comment-hides-newline-before-paren " ++ reason
     else reason
   | .reject why, none =>
-    if why = "malformed number" then "KF:C08-malformed-numeral-accepted " ++ reason
-    else if why = "escape sequence too large" then "KF:C08-decimal-escape-overflow " ++ reason
+    -- the scanner splits `3b`, `1then`, `0x1g` into a numeral and a name where the reference lexer reads one
+    -- malformed numeral; the text loads when the parser happens to accept the two tokens
+    if why = "malformed number" then "KF:C08-numeral-followed-by-letter " ++ reason
     else reason
   | _, _ => reason
 
@@ -158,25 +159,16 @@ def handleLex (valid : Bool) (input : List UInt8) (impl : List String) : Verdict
         if valid ∧ outcome ≠ "fn" then some "a program generated from the grammar was rejected" else none
     { model := m1, spec := if m1.isNone then sp.map (classify mdl spec) else sp }
 
-/-- `parseNumber` (utils.go) on the `Str` of a number token, for the classes where it is predicted exactly:
-    digit-only strings and hexadecimal integers.  `none` = not predicted. -/
+/-- `parseNumber` (utils.go, Lua 5.1 numeral grammar) on the `Str` of a number token, for the classes where the value
+    is predicted exactly: digit-only decimal numerals (leading zeros are plain decimal digits) and hexadecimal
+    integers, both below 2^53.  `none` = not predicted (rounding is C16's subject). -/
 def parseNumberModel (t : List UInt8) : Option String :=
   let showV (v : Nat) : Option String := if v < 2 ^ 53 then some ("i" ++ toString v) else none
   match t with
   | 48 :: x :: hs =>
     if x == 120 || x == 88 then
-      -- ParseInt(s, 0, 64) reads hexadecimal; out of int64 range → ParseFloat("0x…") fails (no 'p' exponent) → NaN
-      if hs ≠ [] ∧ hs.all LexSpec.isHex then
-        let v := LexSpec.hexVal hs
-        if v < 2 ^ 53 then some ("i" ++ toString v) else if v ≥ 2 ^ 63 then some "nan" else none
-      else none
-    else if (x :: hs).all LexSpec.isDigit then
-      -- base prefix "0": octal if every digit is < 8 and the value fits int64, otherwise ParseFloat reads decimal
-      if (x :: hs).all (fun d => d < 56) then
-        let v := (x :: hs).foldl (fun a d => a * 8 + (d.toNat - 48)) 0
-        if v < 2 ^ 63 then showV v else showV (LexSpec.digitsVal t)
-      else showV (LexSpec.digitsVal t)
-    else none
+      if hs ≠ [] ∧ hs.all LexSpec.isHex then showV (LexSpec.hexVal hs) else none
+    else if t.all LexSpec.isDigit then showV (LexSpec.digitsVal t) else none
   | _ => if t ≠ [] ∧ t.all LexSpec.isDigit then showV (LexSpec.digitsVal t) else none
 
 def handleNum (text : List UInt8) (impl : List String) : Verdict :=
@@ -195,11 +187,7 @@ def handleNum (text : List UInt8) (impl : List String) : Verdict :=
       | some v => if impl = ["i" ++ toString v] then none else some ("the numeral denotes " ++ toString v)
       | none => none
     else none
-  let tag (r : String) : String :=
-    match text with
-    | 48 :: 48 :: _ => if mpred.isSome ∧ text.all LexSpec.isDigit then "KF:C08-leading-zeros-octal " ++ r else r
-    | _ => r
-  { model := m1, spec := if m1.isNone then sp.map tag else sp }
+  { model := m1, spec := sp }
 
 def handle (ws : List String) : Verdict :=
   let (args, impl) := splitArrow ws
